@@ -310,7 +310,7 @@ def call_site_bounds(fns, accessors, enum_max, tables):
         out = {}
         ubs = {}
         for fn in fns:
-            for i, x in fn.calls(lambda x: x["k"] == "call"):
+            for i, x in fn.calls(lambda x: x["k"] in ("call", "mcall")):
                 c = x.get("callee")
                 if not c or c not in names:
                     continue
